@@ -337,6 +337,7 @@ class Aggregate:
         self.faults = collections.Counter()
         self.faults_cfg = collections.Counter()
         self.probes = collections.Counter()
+        self.maxima = {}
         self.stats = collections.Counter()
         self.strata = collections.Counter()
         self.states = set()
@@ -376,6 +377,8 @@ class Aggregate:
             self.schedules.add(res['schedule'])
         for b in res.get('bigrams') or []:
             self.bigrams.add(tuple(b))
+        for k, v in (res.get('maxima') or {}).items():
+            self.maxima[k] = max(self.maxima.get(k, float('-inf')), v)
         self.sim_time += float(res.get('sim_time') or 0.0)
         self.child_wall += float(res.get('wall') or 0.0)
         if len(self.samples) < 3 and not res.get('discard'):
@@ -383,6 +386,11 @@ class Aggregate:
 
     def self_check(self):
         """thorough tier: a probe stuck at 0 means the workload stopped reaching a branch"""
+        maxd = getattr(self.check, 'max_discard', 0.6)
+        if self.n >= 50 and self.discarded > maxd * self.n:
+            print(f"HARNESS-ERROR property={self.check.pid} {self.discarded}/{self.n} runs discarded "
+                  f"({dict(self.discard_reasons.most_common(3))}): the workload no longer reaches the property")
+            return 2
         need = getattr(self.check, 'required_probes', {}).get(self.tier, [])
         missing = [p for p in need if self.probes.get(p, 0) == 0 and self.faults.get(p, 0) == 0]
         if missing and self.n >= getattr(self.check, 'probe_min_runs', 200):
@@ -411,6 +419,7 @@ class Aggregate:
                 'faults_fired': dict(self.faults),
                 'faults_configured': dict(self.faults_cfg),
                 'probes': dict(self.probes),
+                'maxima': self.maxima,
                 'strata': dict(self.strata),
                 'distinct_global_states': len(self.states),
                 'distinct_schedules': len(self.schedules),
